@@ -24,6 +24,11 @@ def enables():
         "x>3&&y<3": ([], B("&&", B(">", X, I(3)), B("<", Y, I(3)))),
         "x>y": ([], B(">", X, Y)),
         "named-cmp": ([("decl", "Signal", "en", B(">", X, I(3)))], V("en")),
+        # conditions the compiler can evaluate itself (an anonymous folded constant drives the entity)
+        "const:n>2": ([("decl", "int", "n", I(4))], B(">", V("n"), I(2))),
+        "const:n<2": ([("decl", "int", "n", I(4))], B("<", V("n"), I(2))),
+        "const:expr": ([("decl", "int", "n", I(5))], B("==", B("%", V("n"), I(2)), I(1))),
+        "const:7": ([], I(7)),
         "cond:signal": ([], ("cond", B(">", X, I(3)), Y)),
         "cond:-2": ([], ("cond", B(">", X, I(3)), I(-2))),
         "cond:5": ([], ("cond", B("<=", X, I(3)), I(5))),
@@ -62,7 +67,7 @@ def programs(tier):
     en = enables()
     for proto in PROTOS:
         for tag, (pre, expr) in en.items():
-            if tier == "quick" and proto not in ("small-lamp", "inserter", "pump") and tag not in ("x>3", "x", "x+y>3", "all(chest)>100", "cond:signal"):
+            if tier == "quick" and proto not in ("small-lamp", "inserter", "pump") and tag not in ("x>3", "x", "x+y>3", "all(chest)>100", "cond:signal", "const:n>2"):
                 continue
             body = list(pre) + [("place", "e1", proto, I(10), I(20), None), ("prop", "e1", "enable", expr)]
             env = {"ch": ("steel-chest", 30, 20)} if "chest" in tag or "ch" in str(pre) else ({"tk": ("storage-tank", 30, 20)} if "tank" in tag else {})
